@@ -25,9 +25,37 @@ var LogFiles = []string{
 	"/var/log/syslog",
 }
 
+// A journald MESSAGE written as an array of bytes
+var regJournalBytes = regexp.MustCompile(`"MESSAGE"\s*:\s*\[`)
+
 // SystemdLog is a simplified systemd json log representation.
 type systemdLog struct {
-	Message string `json:"MESSAGE"`
+	Message journalMessage `json:"MESSAGE"`
+}
+
+// journalMessage is a journald field value: a string, or an array of bytes when
+// the value is not printable UTF-8 (e.g. it holds the 0x1d separator of auditd)
+type journalMessage string
+
+func (m *journalMessage) UnmarshalJSON(data []byte) error {
+	var str string
+	if err := json.Unmarshal(data, &str); err == nil {
+		*m = journalMessage(str)
+		return nil
+	}
+	var numbers []uint16
+	if err := json.Unmarshal(data, &numbers); err != nil {
+		return err
+	}
+	raw := make([]byte, 0, len(numbers))
+	for _, n := range numbers {
+		if n > 255 {
+			return fmt.Errorf("not a byte: %d", n)
+		}
+		raw = append(raw, byte(n))
+	}
+	*m = journalMessage(raw)
+	return nil
 }
 
 // GetApparmorLogs return a list of cleaned apparmor logs from a file
@@ -112,14 +140,17 @@ func GetJournalctlLogs(path string, since string, useFile bool) (io.Reader, erro
 	// valid JSON (truncated, foreign) is skipped instead of hiding every other record
 	var res strings.Builder
 	readLines(input, func(line string) {
-		if !strings.Contains(line, "apparmor") {
+		if !strings.Contains(line, "apparmor") && !regJournalBytes.MatchString(line) {
 			return
 		}
 		var log systemdLog
 		if err := json.Unmarshal([]byte(line), &log); err != nil {
 			return
 		}
-		res.WriteString(log.Message)
+		if !strings.Contains(string(log.Message), "apparmor") {
+			return
+		}
+		res.WriteString(string(log.Message))
 		res.WriteString("\n")
 	})
 	return strings.NewReader(res.String()), nil
